@@ -11,6 +11,7 @@ Never generated (by construction, see ASSUMPTIONS of C02): two events that diffe
 does not store (KF-15: same arbitrary waveform with different first/last; ADCs with different dead times),
 RF delays >= 1 s (KF-5).
 """
+import copy
 import math
 
 import numpy as np
@@ -42,8 +43,12 @@ class FGen(seqgen.Gen):
         """as seqgen.Gen.amp, plus near-twins of an earlier amplitude around the 6-/7-digit rounding threshold
         (duplicate removal must merge exactly what the printer cannot distinguish)"""
         r = self.rng
+        if not getattr(self, '_twin_ok', False):
+            # only trapezoids get near-twins: for extended trapezoids / arbitrary gradients a twin amplitude would also
+            # be a twin pair that differs only in the unstored first/last values (KF-15, excluded by construction)
+            return super().amp()
         prev = getattr(self, '_amps', [])
-        if prev and r.random() < 0.2:
+        if prev and r.random() < 0.35:
             a = r.choice(prev) * (1 + r.choice([1e-7, 3e-7, -2e-7, 4e-6, 0.0]))
         else:
             a = super().amp()
@@ -51,6 +56,13 @@ class FGen(seqgen.Gen):
             a = super().amp()
         self._amps = (prev + [a])[-6:]
         return a
+
+    def trap(self, ch):
+        self._twin_ok = True
+        try:
+            return super().trap(ch)
+        finally:
+            self._twin_ok = False
 
     def conn_duration(self, pairs):
         """block length (multiple of T0) long enough to ramp every (first, last) pair at <= 45 % of max slew"""
@@ -125,10 +137,24 @@ class FGen(seqgen.Gen):
                 pairs[ch] = (f, l)
         if not pairs:
             return super().block(final=final)
+        # sometimes the channels that start a chain share ONE gradient event (same library id on two channels)
+        fresh = [ch for ch, (f, l) in pairs.items() if f == 0]
+        share = len(fresh) >= 2 and r.random() < 0.4
+        if share:
+            for ch in fresh[1:]:
+                pairs[ch] = pairs[fresh[0]]
         D = self.conn_duration(pairs.values())
         evs = []
+        shared = None
         for ch, (f, l) in pairs.items():
-            evs.append(self.conn(ch, f, l, D))
+            if share and ch in fresh and shared is not None:
+                g = copy.deepcopy(shared)
+                g.channel = ch
+            else:
+                g = self.conn(ch, f, l, D)
+                if share and ch in fresh:
+                    shared = g
+            evs.append(g)
         # other events that fit into D
         extra = []
         if self.use['rf'] and r.random() < 0.25:
@@ -193,3 +219,17 @@ def random_sequence(rng, system=None, n_blocks=None, use_block_cache=True, **kw)
     if rng.random() < 0.3:
         seq.set_definition('kappa', rng.choice([1.23456789012, -0.000123456789123, 1e-9, 123456789.5]))
     return seq, stored, system
+
+
+def shared_gradient_corpus():
+    """fixed case: one extended trapezoid shared by two channels of block 1, continued by two DIFFERENT gradients in
+    block 2 (the reader's first/last scan must carry the shared event's last value on both channels)"""
+    import pypulseq as pp
+    s = pp.Opts()
+    seq = pp.Sequence(s)
+    up = lambda ch: pp.make_extended_trapezoid(ch, amplitudes=np.array([0, 1e5]), times=np.array([0, 5e-4]), system=s)
+    dn = lambda ch: pp.make_extended_trapezoid(ch, amplitudes=np.array([1e5, 0]), times=np.array([0, 5e-4]), system=s)
+    dn2 = lambda ch: pp.make_extended_trapezoid(ch, amplitudes=np.array([1e5, 2e4, 0]), times=np.array([0, 3e-4, 5e-4]), system=s)
+    seq.add_block(up('x'), up('y'))
+    seq.add_block(dn('x'), dn2('y'))
+    return seq, 2, s
